@@ -259,7 +259,7 @@ class Ctx:
                 self.stats.known_hits[sig] = self.stats.known_hits.get(sig, 0) + 1
                 if sig not in self.printed_known:
                     self.printed_known.add(sig)
-                    print("KNOWN-FINDING: property=%s %s" % (self.id, k["raw"]), flush=True)
+                    print("KNOWN-FINDING: %s" % k["raw"], flush=True)
                 return True
         return False
 
